@@ -128,12 +128,10 @@ def keyOf (tbl : List Expr) : Expr → Nat
       | some i => nodeBase + i
       | none => nodeBase + tbl.length      -- not on the tape (cannot happen for sub-terms of the root)
 
-def catChildren (v : Nat) (a_dummy : Unit) : List (Nat × Nat) → Nat → List (Nat × (NT R → NT R))
+def catChildren (v : Nat) (V : Mask) : List (Nat × Nat) → Nat → List (Nat × (NT R → NT R))
   | [], _ => []
   | (id, len) :: rest, off =>
-      (id, fun a => agg o sz n F (nameMask L id)
-        (if a.mask v then ⟨a.mask, fun env => a.f (upd env v (off + env v))⟩ else a)) ::
-        catChildren v a_dummy rest (off + len)
+      (id, fun a => catPart o sz L n F v V a id off) :: catChildren v V rest (off + len)
 
 /-- the entry `AdjointTape.interpret` records for a node: argument keys and the rule + aggregation -/
 def entryOf (tbl : List Expr) (e : Expr) : Entry (NT R) :=
@@ -150,7 +148,7 @@ def entryOf (tbl : List Expr) (e : Expr) : Entry (NT R) :=
    | .prod v e' =>
        [(keyOf tbl e', fun a => agg o sz n F (fvMask L e')
           (divNT o (mulNT o a (valNT o sz L (.prod v e'))) (valNT o sz L e')))]
-   | .cat v parts => catChildren o sz L n F v () parts 0⟩
+   | .cat v parts => catChildren o sz L n F v (fvMask L (.cat v parts)) parts 0⟩
 
 /-- the tape of `e`, newest entry first -/
 def tapeOf (e : Expr) : List (Entry (NT R)) :=
